@@ -4,7 +4,7 @@
    operands below 2^53 — recorded assumption); normalised widths / heights are computed in the model
    (-, fabs, /, comparisons: bit-reproducible); rdp.mapping is the C07 model; the final filter_worst_knees
    is the local running-minimum definition `rmf`.  None = the code raises.
-   py: postprocessing.py:282-365 add_points_even; 367-447 add_points_even_knees; 98-127 filter_worst_knees *)
+   py: postprocessing.py:282-365 add_points_even; 367-447 add_points_even_knees (as of commit 1b3ec6b); 98-127 filter_worst_knees *)
 From Coq Require Import List Arith Bool ZArith.
 From Knee Require Import Num NpList Model.Mapping.
 Import ListNotations.
@@ -158,21 +158,19 @@ Section Even.
     | [] => Some []
     end.
 
-  (* py: postprocessing.py:367-447 *)
+  (* py: postprocessing.py:367-447; an empty knee array is one gap (0, n-1) followed by the degenerate gap (n-1, n-1):
+     right = knees[0] if len(knees) > 0 else len(points)-1;  left = knees[-1] if len(knees) > 0 else len(points)-1 *)
   Definition add_points_even_knees (knees : list nat) (extremes : bool) : option (list nat) :=
-    match knees with
-    | [] => None                                     (* knees[0]: IndexError *)
-    | k0 :: _ =>
-        let kl := last knees 0 in
-        let nl := length xs - 1 in
-        match qualifies 0 k0, between knees, qualifies kl nl with
-        | Some q0, Some mid, Some q1 =>
-            match gaps_loop ((if q0 then [(0, k0)] else []) ++ mid ++ (if q1 then [(kl, nl)] else [])) with
-            | None => None
-            | Some new_knees => Some (finish knees new_knees extremes)
-            end
-        | _, _, _ => None
+    let nl := length xs - 1 in
+    let k0 := hd nl knees in
+    let kl := last knees nl in
+    match qualifies 0 k0, between knees, qualifies kl nl with
+    | Some q0, Some mid, Some q1 =>
+        match gaps_loop ((if q0 then [(0, k0)] else []) ++ mid ++ (if q1 then [(kl, nl)] else [])) with
+        | None => None
+        | Some new_knees => Some (finish knees new_knees extremes)
         end
+    | _, _, _ => None
     end.
 
   (* ---------------- the declarative reading (what the theorems compare the loops with) ---------------- *)
@@ -218,5 +216,10 @@ End Even.
 (* the specification of each function *)
 Definition even_spec_reduced {N : Num} (xs ys : list (T N)) (tx ty : T N) (red knees : list nat) (extremes : bool) :=
   even_spec xs ys tx ty (consecutive red) (map (fun i => nth i red 0) knees) extremes.
+(* the gaps of the knees-as-markers variant: curve start .. first knee, consecutive knees, last knee .. curve end;
+   for a non-empty knee list these are the consecutive pairs of 0 :: knees ++ [n-1] (EvenPointsFacts.knee_gaps_consecutive),
+   for the empty list the whole curve (0, n-1) and the degenerate gap (n-1, n-1) *)
+Definition knee_gaps (nl : nat) (knees : list nat) : list (nat * nat) :=
+  (0, hd nl knees) :: consecutive knees ++ [(last knees nl, nl)].
 Definition even_spec_knees {N : Num} (xs ys : list (T N)) (tx ty : T N) (knees : list nat) (extremes : bool) :=
-  even_spec xs ys tx ty (consecutive (0 :: knees ++ [length xs - 1])) knees extremes.
+  even_spec xs ys tx ty (knee_gaps (length xs - 1) knees) knees extremes.
